@@ -32,4 +32,5 @@ MUTANTS = [
     m("c15-memmap-fill-zero", "R5", "    memmap[:] = default_val\n", "    memmap[:] = 0\n"),
     m("c15-twin-memmap-fill-method", None, "    memmap[:] = default_val\n", "    memmap.fill(default_val)\n", twin=True),
     m("c15-parent-keeps-waiting-after-interrupt", "R2", "                    elif isinstance(iter_queue_item, KeyboardInterrupt):\n                        exception = iter_queue_item\n                        break", "                    elif isinstance(iter_queue_item, KeyboardInterrupt):\n                        exception = iter_queue_item\n                        chains_completed += 1", key="waits-after-interrupt"),
+    m("c15-undo-F21", "R2", "                    if isinstance(exception, KeyboardInterrupt):\n                        # Adaptation in an interrupted stage is incomplete (possibly for\n                        # only some of the chains) so adapters are not finalized\n                        return MCMCSampleChainsOutputs(chain_states, traces, stats)\n                    if len(adapter_states) > 0:", "                    if len(adapter_states) > 0:", key="finalize-after-interrupt"),
 ]
